@@ -112,3 +112,20 @@ REG.contract('C14', U, 'do_conf_str_cmake', params={'src': Str, 'data': _List(St
              opaque_fns={'do_define_cmake': ([Str, Obj, Bool], Str), 'do_replacement_cmake': ([Str, Bool, Obj], SubstR)},
              opaque={'keys': ([], Obj)}, method_effects={'single_use': []}, floor=4,
              note='cmake formats: line k of the output is the rendering of line k of the template and of nothing else: a `# cmakedefine` line (blanks allowed around the #) by do_define_cmake, any other line by the cmake placeholder scanner; a #mesondefine in a cmake-format template is an error')
+
+# ---- a header generated without a template: after the prelude, ONE define line per key of the data, in sorted order, each rendering
+# its value as documented (true -> define, false -> undef, integers and strings as text) — for data of any size.  Stated for data
+# without descriptions (every key then writes exactly one line; descriptions interleave comment lines: bounded only).
+HdrS = Struct('ConfigurationData', 'mesonbuild.build:ConfigurationData', values=Dict(Str, Entry))
+_HL = ("(((pre + 'define ' + __seq[k] + '\\n\\n') if cdata.values[__seq[k]][0] else (pre + 'undef ' + __seq[k] + '\\n\\n')) if isinstance(cdata.values[__seq[k]][0], bool) "
+       "else (pre + 'define ' + __seq[k] + ' ' + str(cdata.values[__seq[k]][0]) + '\\n\\n'))")
+for _fmt, _pre in (('c', '#'), ('nasm', '%')):
+    REG.contract('C14', U, '_dump_c_header', variant=_fmt, params={'ofile': Obj, 'cdata': HdrS, 'output_format': Const(_fmt), 'macro_name': Const(None)},
+                 requires=["forall(Str, lambda x: implies(x in cdata.values, cdata.values[x][1] == ''))"],
+                 ensures=["len(ws) == 1 + len(cdata.values)"],
+                 raises={'MesonException': 'True'}, exact_raises=False,
+                 loops={0: Loop(invariant=["len(ws) == 1 + __i",
+                                           f"forall(Int, lambda k: implies(0 <= k and k < __i, ws[1 + k] == {_HL}))".replace('pre', repr(_pre))],
+                                locals={'k': Str, 'v': CV, 'desc': Str})},
+                 ghost_seqs={'ws': ('write', 2, Str)}, method_effects={'write': []}, floor=4,
+                 note=f'{_fmt} header without include guard: the prelude, then one line per key in sorted order with the documented rendering of its value')
